@@ -14,6 +14,7 @@ CASES = {'quick': 700, 'thorough': 30000}
 PARALLEL = True
 PROOF_TIMEOUT = 1500
 ALLOWED_AXIOMS = ()
+DEPENDS = ['C03', 'C18']     # Model/C05.v imports Model/C03.v and Model/C18.v: the engine regenerates their facts first
 RULE = ('one case = one Configurator program (security policy absent / truthy object / falsy dict-subclass object, given to the '
         'constructor or by set_security_policy; default permission absent / name / falsy IntEnum member / empty string / '
         'NO_PERMISSION_REQUIRED, constructor or directive; routes; 2-9 add_view / add_notfound_view(append_slash) / '
@@ -62,7 +63,6 @@ def facts(src):
     summary = F.check_shapes(src, os.path.join(HERE, 'pins.json'), problems)
     vals, pr = c05facts.extract(src)
     problems += pr
-    c05facts.stale_imported_facts(src, problems)
     _facts_cache['vals'] = vals
     summary.update({k: (list(v) if isinstance(v, tuple) else v) for k, v in vals.items()})
     return {'coq': c05facts.emit(vals), 'summary': summary, 'problems': problems}
